@@ -55,7 +55,7 @@ func VerifC19_PassHonoursWeights() {
 		}
 		pools = append(pools, ps)
 	}
-	cpu := verifrt.Quantity("pod.cpu", 1, 20000)
+	cpu := verifrt.MilliQuantity("pod.cpu", 1, 20000)
 	p := w.addPod("pending-0", "", cpu)
 	zone2 := verifrt.Choice("pod.zone2", 0, 1) == 1
 	if zone2 {
@@ -69,7 +69,7 @@ func VerifC19_PassHonoursWeights() {
 
 	results, err := w.prov.Schedule(w.ctx)
 	verifrt.Assert(err == nil, "the scheduling pass completes")
-	fits := cpu.CmpInt64(16) <= 0
+	fits := cpu.CmpInt64(16) <= 0 // cpu is in milli-units, CmpInt64 compares whole cores
 	feasible := func(ps poolSpec) bool {
 		return ps.ready && fits && !(ps.shape == 1 && zone2) && !(ps.shape == 2 && !tolerates)
 	}
